@@ -2530,7 +2530,207 @@ def lower_merged_handlers(repo):
     return count
 
 
+def lower_properties(repo):
+    """A read-only ``@property`` whose body is one ``return <expression over self>`` (no calls
+    with effects: only attribute reads, constants, operators, conditional expressions and calls of
+    builtins on them), whose name no other class of the package defines and nothing in the package
+    stores, and that has no setter: every read ``x.p`` (x a name or attribute chain) is the
+    expression with ``x`` for ``self``.  Exact: the property is computed at every read from the
+    same attributes"""
+    import builtins
+    count = 0
+    defs = {}          # name -> number of class-level definitions in the package
+    props = {}
+    for ci in repo.classes.values():
+        for b in ci.node.body:
+            if isinstance(b, (ast.FunctionDef, ast.AsyncFunctionDef)):
+                defs[b.name] = defs.get(b.name, 0) + 1
+            elif isinstance(b, ast.Assign):
+                for t in b.targets:
+                    for x in ast.walk(t):
+                        if isinstance(x, ast.Name):
+                            defs[x.id] = defs.get(x.id, 0) + 1
+            elif isinstance(b, ast.AnnAssign) and isinstance(b.target, ast.Name):
+                defs[b.target.id] = defs.get(b.target.id, 0) + 1
+    for ci in repo.classes.values():
+        for b in ci.node.body:
+            if not (isinstance(b, ast.FunctionDef) and len(b.decorator_list) == 1 and isinstance(b.decorator_list[0], ast.Name) and b.decorator_list[0].id == 'property'):
+                continue
+            ar = b.args
+            if len(ar.args) != 1 or ar.vararg or ar.kwarg or ar.kwonlyargs or ar.defaults:
+                continue
+            body = [x for x in b.body if not (isinstance(x, ast.Expr) and isinstance(x.value, ast.Constant))]
+            if len(body) != 1 or not isinstance(body[0], ast.Return) or body[0].value is None:
+                continue
+            e = body[0].value
+            sname = ar.args[0].arg
+            ok = defs.get(b.name, 0) == 1
+            for x in ast.walk(e):
+                if isinstance(x, (ast.Lambda, ast.Yield, ast.YieldFrom, ast.Await, ast.NamedExpr, ast.ListComp, ast.GeneratorExp, ast.SetComp, ast.DictComp, ast.Starred)):
+                    ok = False
+                elif isinstance(x, ast.Name) and x.id != sname and not (hasattr(builtins, x.id)):
+                    ok = False
+                elif isinstance(x, ast.Call) and not (isinstance(x.func, ast.Name) and x.func.id in ('len', 'int', 'bool', 'str', 'bytes', 'tuple', 'abs', 'min', 'max', 'isinstance')):
+                    ok = False
+                elif isinstance(x, ast.Attribute) and x.attr == b.name:
+                    ok = False
+            if ok:
+                props[b.name] = (sname, e, ci)
+    if not props:
+        return 0
+    # nothing stores / deletes the name, nobody reaches it by string
+    for info in repo.modules.values():
+        for x in ast.walk(info['tree']):
+            if isinstance(x, ast.Attribute) and x.attr in props and not isinstance(x.ctx, ast.Load):
+                props.pop(x.attr, None)
+            elif isinstance(x, ast.Constant) and isinstance(x.value, str) and x.value in props:
+                props.pop(x.value, None)
+    if not props:
+        return 0
+
+    def simple(e):
+        return isinstance(e, ast.Name) or (isinstance(e, ast.Attribute) and simple(e.value))
+
+    class Sub(ast.NodeTransformer):
+        def __init__(self, sname, recv):
+            self.sname, self.recv = sname, recv
+
+        def visit_Name(self, n):
+            if n.id == self.sname:
+                return copy.deepcopy(self.recv)
+            return n
+
+    class T(ast.NodeTransformer):
+        def visit_Attribute(self, n):
+            self.generic_visit(n)
+            if isinstance(n.ctx, ast.Load) and n.attr in props and simple(n.value):
+                sname, e, _ = props[n.attr]
+                nonlocal count
+                count += 1
+                return ast.copy_location(Sub(sname, n.value).visit(copy.deepcopy(e)), n)
+            return n
+    for fi in repo.functions.values():
+        if isinstance(fi.node, ast.FunctionDef) and not (fi.node.name in props and fi.cls is not None and fi.cls is props[fi.node.name][2]):
+            fi.node.body = [T().visit(x) for x in fi.node.body]
+            ast.fix_missing_locations(fi.node)
+    return count
+
+
+def lower_named_entries(repo):
+    """Round 9.  ``T = namedtuple('T', [f0, f1, ...])`` at module level, used for the entries of
+    the field table: ``T(a, b, ...)`` (all fields, positional) is the tuple ``(a, b, ...)``,
+    ``T._make(x)`` / ``T(*x)`` is ``tuple(x)``, and ``e.fi`` is ``e[i]`` where ``e`` is a loop /
+    comprehension variable that runs over the field table (``X.get_fields()``, ``self.fields``,
+    possibly under ``enumerate``) and is bound nowhere else in the function.  Exact: a named
+    tuple is that tuple, and its named parts are its positions"""
+    count = 0
+    records = {}
+    for mod, info in repo.modules.items():
+        for st in info['tree'].body:
+            if isinstance(st, ast.Assign) and len(st.targets) == 1 and isinstance(st.targets[0], ast.Name) and isinstance(st.value, ast.Call) \
+                    and ast.unparse(st.value.func) in ('namedtuple', 'collections.namedtuple') and len(st.value.args) == 2 and not st.value.keywords:
+                a = st.value.args[1]
+                if isinstance(a, ast.Constant) and isinstance(a.value, str):
+                    fields = a.value.replace(',', ' ').split()
+                elif isinstance(a, (ast.List, ast.Tuple)) and all(isinstance(x, ast.Constant) and isinstance(x.value, str) for x in a.elts):
+                    fields = [x.value for x in a.elts]
+                else:
+                    continue
+                if st.targets[0].id in records:
+                    records[st.targets[0].id] = None
+                else:
+                    records[st.targets[0].id] = fields
+    records = {k: v for k, v in records.items() if v}
+    # only the records that are the rows of a field table: built in an assignment of ``self.fields``
+    rows = set()
+    for fi in repo.functions.values():
+        for n in ast.walk(fi.node):
+            if isinstance(n, (ast.Assign, ast.AugAssign)) and any(ast.unparse(t) == 'self.fields' for t in (n.targets if isinstance(n, ast.Assign) else [n.target])):
+                for c in ast.walk(n.value):
+                    if isinstance(c, ast.Call):
+                        f = c.func.value if isinstance(c.func, ast.Attribute) and c.func.attr == '_make' else c.func
+                        if isinstance(f, ast.Name) and f.id in records:
+                            rows.add(f.id)
+    records = {k: v for k, v in records.items() if k in rows}
+    if not records:
+        return 0
+    by_field = {}
+    for r, fs in records.items():
+        for i, f in enumerate(fs):
+            by_field.setdefault(f, set()).add(i)
+
+    def table_iter(it):
+        if isinstance(it, ast.Call) and isinstance(it.func, ast.Name) and it.func.id == 'enumerate' and len(it.args) == 1:
+            return 'enum', it.args[0]
+        return 'plain', it
+
+    def is_table(e):
+        t = ast.unparse(e)
+        return t.endswith('.get_fields()') or t in ('self.fields', 'get_fields()')
+
+    for fi in repo.functions.values():
+        if not isinstance(fi.node, ast.FunctionDef):
+            continue
+        fn = fi.node
+        # constructors
+        class C(ast.NodeTransformer):
+            def visit_Call(self, n):
+                self.generic_visit(n)
+                nonlocal count
+                if isinstance(n.func, ast.Name) and n.func.id in records and not n.keywords:
+                    if len(n.args) == len(records[n.func.id]) and not any(isinstance(a, ast.Starred) for a in n.args):
+                        count += 1
+                        return ast.copy_location(ast.Tuple(elts=list(n.args), ctx=ast.Load()), n)
+                    if len(n.args) == 1 and isinstance(n.args[0], ast.Starred):
+                        count += 1
+                        return ast.copy_location(ast.Call(func=ast.Name(id='tuple', ctx=ast.Load()), args=[n.args[0].value], keywords=[]), n)
+                if isinstance(n.func, ast.Attribute) and n.func.attr == '_make' and isinstance(n.func.value, ast.Name) and n.func.value.id in records and len(n.args) == 1 and not n.keywords:
+                    count += 1
+                    return ast.copy_location(ast.Call(func=ast.Name(id='tuple', ctx=ast.Load()), args=[n.args[0]], keywords=[]), n)
+                return n
+        fn.body = [C().visit(x) for x in fn.body]
+        # entry variables
+        stores = {}
+        for x in ast.walk(fn):
+            if isinstance(x, ast.Name) and isinstance(x.ctx, ast.Store):
+                stores[x.id] = stores.get(x.id, 0) + 1
+        entry_vars = set()
+        for x in ast.walk(fn):
+            gens = []
+            if isinstance(x, ast.For):
+                gens.append((x.target, x.iter))
+            elif isinstance(x, (ast.ListComp, ast.GeneratorExp, ast.SetComp, ast.DictComp)):
+                gens.extend((g.target, g.iter) for g in x.generators)
+            for tgt, it in gens:
+                kind, src = table_iter(it)
+                if not is_table(src):
+                    continue
+                if kind == 'enum' and isinstance(tgt, ast.Tuple) and len(tgt.elts) == 2:
+                    tgt = tgt.elts[1]
+                elif kind == 'enum':
+                    continue
+                if isinstance(tgt, ast.Name) and stores.get(tgt.id) == 1:
+                    entry_vars.add(tgt.id)
+        if not entry_vars:
+            ast.fix_missing_locations(fn)
+            continue
+
+        class A(ast.NodeTransformer):
+            def visit_Attribute(self, n):
+                self.generic_visit(n)
+                nonlocal count
+                if isinstance(n.ctx, ast.Load) and isinstance(n.value, ast.Name) and n.value.id in entry_vars and n.attr in by_field and len(by_field[n.attr]) == 1:
+                    count += 1
+                    return ast.copy_location(ast.Subscript(value=n.value, slice=ast.Constant(value=next(iter(by_field[n.attr]))), ctx=ast.Load()), n)
+                return n
+        fn.body = [A().visit(x) for x in fn.body]
+        ast.fix_missing_locations(fn)
+    return count
+
+
 def inline_helpers(repo):
+    repo.lowered_named_entries = lower_named_entries(repo)
+    repo.lowered_properties = lower_properties(repo)
     repo.lowered_merged_handlers = 0
     repo.lowered_local_method_aliases = lower_local_method_aliases(repo)
     repo.lowered_getters = 0
